@@ -196,6 +196,22 @@ def run(tier):
 
     # R3 fresh ids
     ck.rule("R3.fresh-ids", "Order ids come from next_order_id, which is only incremented", floor=3)
+    # helpers that hand out the next id (`fn take_next_order_id(interp) -> u64 { let id = interp.next_order_id; interp.next_order_id += 1; id }`): they
+    # write the counter (judged below like every writer) and return a value read from it
+    from c09 import ancestors as anc3
+    id_takers = set()
+    for g3 in fx.fns.values():
+        if g3.derived or g3.closure or not g3.sig or fx.tys(g3.sig[-1]) not in ("u64", "u32", "usize", "OrderId"):
+            continue
+        wr3 = any(s_[0] == "a" and F.place_fields(s_[1]) and F.place_fields(s_[1])[-1][0] == INTERP and F.place_fields(s_[1])[-1][2] == "next_order_id"
+                  for bl_ in g3.blocks for s_ in bl_["s"])
+        rd3 = False
+        for l3 in anc3(g3, 0):
+            for (db, si, drv) in g3.defs().get(l3, []):
+                if si != "T" and drv[0] == "use" and drv[1][0] in ("c", "m") and any(x[2] == "next_order_id" for x in F.place_fields(drv[1][1])):
+                    rd3 = True
+        if wr3 and rd3:
+            id_takers.add(g3.path)
     for f in fx.fns.values():
         writes = []
         for bi, bl in enumerate(f.blocks):
@@ -239,7 +255,9 @@ def run(tier):
                                     d1 = M.trace_back(f, o[1][0])
                                     if d1 and d1[1] != "T" and d1[2][0] == "use" and d1[2][1][0] in ("c", "m") and any(x[2] == "next_order_id" for x in F.place_fields(d1[2][1][1])):
                                         fresh = True
-                    fresh = fresh and bool(writes)
+                                    elif d1 and d1[1] == "T" and d1[2][1].get("d") in id_takers:
+                                        fresh = "taker"
+                    fresh = (fresh == "taker") or (fresh and bool(writes))
                     ck.instance("R3.fresh-ids", "%s constructs Order" % f.path, F.short_span(s[3]), ok=fresh)
                     if not fresh:
                         ck.finding("R3.fresh-ids", "R3.fresh-ids/order/%s" % f.path, F.short_span(s[3]),
@@ -311,7 +329,7 @@ def run(tier):
     # found by position, so an index over another collection cancels the winner and spares a loser
     import slotindex
     n8 = slotindex.rule(fx, ck, name="R8.cancel-index-domain")
-    ck.anchor(n8 >= 2, "settle-handler aggregates pairing an index with a shared state (found %d)" % n8)
+    ck.anchor(n8 >= 1, "settle-handler aggregates pairing an index with a shared state (found %d)" % n8)
     # R6 siblings
     import c19
     c19.sibling_vmresult_mappers(fx, ck, "R6.mapper-siblings")
@@ -331,11 +349,15 @@ def run(tier):
                             w10.add(n_)
         if not {"active_vm", "wait_graph"} <= w10:
             continue
-        for bi, t in f10.calls():
-            if (t[1].get("d") or "").split("::")[-1] in ("clear", "take", "drain") and t[2] and t[2][0][0] in ("c", "m"):
-                fl = E10.field_of_ref(f10, t[2][0][1][0])
-                if fl and fl[0] == INTERP:
-                    cleared.add(fl[2])
+        # ... itself, or in a helper it calls (`discard_order_traffic()`)
+        group10 = [f10] + [fx.fns[t[1]["d"]] for _, t in f10.calls() if t[1].get("local") and (t[1].get("d") or "").startswith(INTERP + "::") and t[1]["d"] in fx.fns
+                           and t[1]["d"] != p10]
+        for g10 in group10:
+            for bi, t in g10.calls():
+                if (t[1].get("d") or "").split("::")[-1] in ("clear", "take", "drain") and t[2] and t[2][0][0] in ("c", "m"):
+                    fl = E10.field_of_ref(g10, t[2][0][1][0])
+                    if fl and fl[0] == INTERP:
+                        cleared.add(fl[2])
         for fld in ("pending_orders", "cancelled_orders", "order_responses"):
             ok10 = fld in cleared or fld in w10
             ck.instance("R10.disposer-clears-ledger", "%s empties %s" % (p10, fld), F.short_span(f10.span), ok=ok10)
